@@ -568,6 +568,38 @@ def rule_twoqubit(ctx: Ctx) -> None:
 MOVE_ADDS_REMOVABLE = {"EvolutionarySolver.add_measurement_cnot_and_reset": "mid-search measure-and-reset added by a move, not at initialisation"}
 
 
+# --------------------------------------------------------------------------- own.frontinsert (who may call the time-reversed insertion helpers)
+
+
+def rule_frontinsert_owner(ctx: Ctx) -> None:
+    """own.frontinsert: TimeReversedSolver's private insertion helpers place an operation at the *front* of a wire (right after the register
+    input) because that solver builds its circuit backwards in time.  They are called only from inside TimeReversedSolver: used on a
+    finished circuit (to "merge" conversion gates, say) they put the gate in front of the photon's emission CNOT, where the photon is
+    still |0> — the gate acts on the wrong state and the photon's first operation is no longer its emission."""
+    from ..core import enclosing_class
+    repo = ctx.repo
+    helpers = set(INSERT_HELPERS) | {"_add_gates_from_str"}
+    n = 0
+    for m in repo.modules.values():
+        for fn in m.functions():
+            for c in calls_in(fn, nested=False):
+                if call_attr(c) in helpers and isinstance(c.func, ast.Attribute):
+                    n += 1
+                    cls_ = enclosing_class(fn)
+                    inside = m.rel == TRS and cls_ is not None and cls_.name == "TimeReversedSolver" and norm(c.func.value) == "self"
+                    if inside:
+                        continue
+                    ctx.touch(m, fn)
+                    ctx.fail("own.frontinsert", m, c,
+                             f"{qualname(fn)} calls `{short(c, 70)}`: {call_attr(c)} inserts at the front of the wire (the time-reversed solver builds circuits "
+                             f"backwards); on a finished circuit the gate lands between the register's input and the photon's emission CNOT, so the photon's "
+                             f"first operation is no longer its emission and the gate acts on |0> instead of the generated state",
+                             func=qualname(fn), construct=f"{qualname(fn)}: {call_attr(c)} called from outside TimeReversedSolver")
+    if n == 0:
+        raise AnalysisError("own.frontinsert: no call of the insertion helpers found")
+    ctx.ok_abstract("own.frontinsert", f"{n} calls of the time-reversed insertion helpers, all from inside TimeReversedSolver")
+
+
 # --------------------------------------------------------------------------- move.edge-roles
 
 
